@@ -67,13 +67,33 @@ def schedule(cfg, s, until, max_cyclic=40):
     return out
 
 
+def schedule_from(cfg, t0, until, max_cyclic=40):
+    """scheduled offers when the first one was decided at t0"""
+    out, t, i = [], t0, 0
+    while t <= until + RES:
+        out.append(t)
+        if i < cfg["reps"]:
+            t = t + (2 ** i) * BD
+        elif cfg["cyclic"] and len(out) < cfg["reps"] + 1 + max_cyclic:
+            t = t + cfg["cyclic"]
+        else:
+            break
+        i += 1
+    return out
+
+
 def answer_delay(cfg):
     return cfg["rr"][0] + (cfg["rr"][1] - cfg["rr"][0]) * cfg["f"]
 
 
 # --------------------------------------------------------------------------------- expectation model
-def expectations(cfg, ninst, script, horizon):
-    """script: [(t, rank, action dict)] -> ({k: [items]}, segments)"""
+def expectations(cfg, ninst, script, horizon, first_offers):
+    """script: [(t, rank, action dict)]; first_offers: {k: [queue instants of multicast offers with TTL>0]}
+    -> ({k: [items]}, segments, problems)
+
+    The property only promises the first offer *inside* the initial-delay window, so the timeline is anchored on the instant
+    the first offer of each start was actually decided (taken from the queue_send boundary), which must lie in the window;
+    repetitions and cyclic offers are then exact relative to it."""
     segs = {k: [] for k in range(ninst)}
     started = False
     announced = set()
@@ -97,22 +117,37 @@ def expectations(cfg, ninst, script, horizon):
             if started and segs[a["k"]] and segs[a["k"]][-1][1] is None:
                 segs[a["k"]][-1][1] = t
     ct = cfg["ct"]
+    wmin, wmax = cfg["window"]
     exp = {k: [] for k in range(ninst)}
+    problems = []
+    t0s = {}
 
-    def item(k, kind, dst, lo, must, why):
-        exp[k].append(dict(kind=kind, dst=dst, lo=lo, hi=lo + ct, must=must, why=why, hit=0))
+    def item(k, kind, dst, lo, must, why, hi=None):
+        exp[k].append(dict(kind=kind, dst=dst, lo=lo, hi=(lo if hi is None else hi) + ct, must=must, why=why, hit=0))
 
     for k in range(ninst):
-        for s, x in segs[k]:
-            T = schedule(cfg, s, x if x is not None else horizon)
+        for n, (s, x) in enumerate(segs[k]):
+            nxt = segs[k][n + 1][0] if n + 1 < len(segs[k]) else float("inf")
+            end = min(x if x is not None else float("inf"), nxt)
+            cands = [q for q in first_offers.get(k, []) if s - RES <= q <= end + RES and q < nxt - RES or (q <= end + RES and abs(q - s) <= RES)]
+            cands = [q for q in cands if q >= s - RES]
+            t0 = min(cands) if cands else None
+            t0s[(k, n)] = t0
+            if t0 is None:
+                deadline = s + wmax
+                if (x is None and deadline < horizon - ct - 4 * RES) or (x is not None and x > deadline + RES):
+                    problems.append(("first-offer-missing-after-the-initial-delay-window", dict(instance=k, started=s, window=(s + wmin, s + wmax))))
+                if x is not None and not cfg["cyclic"]:
+                    item(k, "stop", net.MCAST, x, False, "non-cyclic instance stopped before its first offer")
+                continue
+            if not (s + wmin - 4 * RES <= t0 <= s + wmax + 4 * RES):
+                problems.append(("first-offer-outside-the-initial-delay-window", dict(instance=k, started=s, first_offer=t0, window=(s + wmin, s + wmax))))
+            T = schedule_from(cfg, t0, x if x is not None else horizon)
             definite = False
             maybe = False
             for tt in T:
                 if x is None or tt < x - RES:
-                    if tt <= horizon - ct - 2 * RES:
-                        item(k, "offer", net.MCAST, tt, True, "scheduled offer")
-                    else:
-                        item(k, "offer", net.MCAST, tt, False, "scheduled offer at the horizon")
+                    item(k, "offer", net.MCAST, tt, tt <= horizon - ct - 2 * RES, "scheduled offer")
                     definite = True
                 elif abs(tt - x) <= RES:
                     item(k, "offer", net.MCAST, tt, False, "offer coincides with stop")
@@ -122,8 +157,7 @@ def expectations(cfg, ninst, script, horizon):
                     item(k, "stop", net.MCAST, x, True, "stop after offering")
                 elif maybe or not cfg["cyclic"]:
                     item(k, "stop", net.MCAST, x, False, "stop coincides with first offer / non-cyclic before first offer")
-    d = answer_delay(cfg)
-    v = cfg["window"][0] + (cfg["window"][1] - cfg["window"][0]) * cfg["f"]
+    rmin, rmax = cfg["rr"]
     for t, rank, a in script:
         if a["kind"] != "find":
             continue
@@ -132,27 +166,27 @@ def expectations(cfg, ninst, script, horizon):
             if k >= ninst:
                 continue
             seg = None
-            for s, x in segs[k]:
+            for n, (s, x) in enumerate(segs[k]):
                 if s <= y + RES and (x is None or y <= x + RES):
-                    seg = (s, x)
+                    seg = (n, s, x)
             if seg is None:
                 continue
-            s, x = seg
-            T0 = s + v
-            if y < T0 - RES:
-                continue
-            ready_must = abs(y - T0) > RES
-            z = y + d if a["mc"] else y
-            later_start = any(s2 > s and s2 <= z + RES for s2, _x2 in segs[k])
-            if x is not None and x < z - RES:
+            n, s, x = seg
+            t0 = t0s.get((k, n))
+            if t0 is None or y < t0 - RES:
+                continue  # initial wait phase: silent
+            ready_must = abs(y - t0) > RES
+            zlo, zhi = (y + rmin, y + rmax) if a["mc"] else (y, y)
+            later_start = any(s2 > s and s2 <= zhi + RES for s2, _x2 in segs[k])
+            if x is not None and x < zlo - RES:
                 if later_start or abs(x - y) <= RES:
-                    item(k, "offer", a["peer"], z, False, "answer after stop+restart / stop in the find's instant")
+                    item(k, "offer", a["peer"], zlo, False, "answer after stop+restart / stop in the find's instant", hi=zhi)
                 continue
-            if x is not None and abs(x - z) <= RES:
-                item(k, "offer", a["peer"], z, False, "answer coincides with stop")
+            if x is not None and x <= zhi + RES:
+                item(k, "offer", a["peer"], zlo, False, "stop inside the answer window", hi=zhi)
                 continue
-            item(k, "offer", a["peer"], z, ready_must and z <= horizon - ct - 2 * RES, "find answer")
-    return exp, segs
+            item(k, "offer", a["peer"], zlo, ready_must and zhi <= horizon - ct - 2 * RES, "find answer", hi=zhi)
+    return exp, segs, problems
 
 
 # --------------------------------------------------------------------------------- execution
@@ -235,7 +269,18 @@ class Run:
 def judge(ctx, cfg, ninst, script, horizon, seed, replay, tags=()):
     run = Run(cfg, ninst, script, seed)
     sent, problems = run.execute(horizon)
-    exp, segs = expectations(cfg, ninst, script, horizon)
+    ids0 = {(INSTS[k]["sid"], INSTS[k]["iid"]): k for k in range(ninst)}
+    first_offers = {}
+    for q in run.qlog:
+        if q[0] == "q" and q[6] == 1 and q[4] > 0 and q[5] is None and (q[2], q[3]) in ids0:
+            first_offers.setdefault(ids0[(q[2], q[3])], []).append(q[1])
+    if not any(q[0] == "q" for q in run.qlog) and sent:
+        # the queue_send boundary was not on the path: fall back to the wire instants (the collection timeout is slack)
+        for m in sent:
+            for e in m["entries"]:
+                if e["type"] == 1 and e["ttl"] > 0 and m["dst"] == net.MCAST and (e["sid"], e["iid"]) in ids0:
+                    first_offers.setdefault(ids0[(e["sid"], e["iid"])], []).append(m["t"] - cfg["ct"])
+    exp, segs, model_problems = expectations(cfg, ninst, script, horizon, first_offers)
     ctx.count("scenarios")
     ctx.count("queue_log_entries", sum(1 for q in run.qlog if q[0] == "q"))
     ctx.count("double_stop_calls", run.stats["double_stop_calls"])
@@ -259,10 +304,16 @@ def judge(ctx, cfg, ninst, script, horizon, seed, replay, tags=()):
             bad("unexpected-exception-during-run", problem=p)
     if sent is None:
         return
+    for mech, detail in model_problems:
+        bad(mech, **detail)
     ids = {(INSTS[k]["sid"], INSTS[k]["iid"]): k for k in range(ninst)}
     tol = 4 * RES
-    # ---- wire monitor: every Offer entry must be explained by the timeline, every 'must' must appear
-    for msg in sent:
+    # ---- wire monitor: every Offer entry must be explained by the timeline, every 'must' must appear.
+    # Windows may overlap (collection slack, answer windows), so this is a bipartite matching problem: by the
+    # Mendelsohn-Dulmage theorem a matching that covers all observations AND all 'must' items exists iff one exists for
+    # each side separately, so the two sides are checked (and reported) separately.
+    obs = {k: [] for k in range(ninst)}
+    for msg in sorted(sent, key=lambda m: m["t"]):
         for e in msg["entries"]:
             if e["type"] != 1:
                 bad("announcer-sent-a-non-offer-entry", entry=e, t=msg["t"])
@@ -275,36 +326,59 @@ def judge(ctx, cfg, ninst, script, horizon, seed, replay, tags=()):
             kind = "stop" if e["ttl"] == 0 else "offer"
             if e["maj"] != c["maj"] or e["val"] != c["minor"] or (kind == "offer" and (e["ttl"] != cfg["ttl"] or e["o1"] != run.ref_opts[k] or e["o2"])):
                 bad("offer-content-differs-from-configuration", instance=k, entry=e, t=msg["t"])
-            cand = [it for it in exp[k] if it["kind"] == kind and it["dst"] == msg["dst"] and it["hit"] == 0
-                    and it["lo"] - tol <= msg["t"] <= it["hi"] + tol]
-            if cand:
-                cand.sort(key=lambda it: (not it["must"], it["lo"]))
-                cand[0]["hit"] = 1
-                ctx.count("offers_matched" if kind == "offer" and msg["dst"] == net.MCAST else
-                          "stopoffers_matched" if kind == "stop" else "find_answers_matched")
-            else:
-                # classify the surplus entry
-                stops = [x for s, x in segs[k] if x is not None and x <= msg["t"] + tol]
-                starts_after = [s for s, x in segs[k] if stops and s > max(stops) and s <= msg["t"] + tol]
-                if kind == "offer" and stops and not starts_after:
-                    mech = "offer-with-nonzero-ttl-after-stopoffer"
-                elif kind == "stop":
-                    mech = "unexpected-or-duplicate-stopoffer"
-                elif msg["dst"] != net.MCAST and msg["dst"] not in (PEER, PEER2):
-                    mech = "offer-sent-to-wrong-destination"
-                elif msg["dst"] == net.MCAST:
-                    mech = "offer-off-schedule"
-                else:
-                    mech = "unexpected-find-answer"
-                near = sorted(exp[k], key=lambda it: abs(it["lo"] - msg["t"]))[:3]
-                bad(mech, instance=k, t=msg["t"], dst=msg["dst"], ttl=e["ttl"],
-                    nearest_expected=[(it["kind"], it["dst"], it["lo"], it["must"], it["why"]) for it in near])
+            obs[k].append(dict(t=msg["t"], kind=kind, dst=msg["dst"], ttl=e["ttl"]))
+
+    def fits(o, it):
+        return it["kind"] == o["kind"] and it["dst"] == o["dst"] and it["lo"] - tol <= o["t"] <= it["hi"] + tol
+
+    def saturate(left, right, edge):
+        """Kuhn's augmenting paths; returns the indices of `left` that cannot be matched"""
+        match_r = {}
+
+        def try_(u, seen):
+            for v in range(len(right)):
+                if v in seen or not edge(left[u], right[v]):
+                    continue
+                seen.add(v)
+                if v not in match_r or try_(match_r[v], seen):
+                    match_r[v] = u
+                    return True
+            return False
+
+        return [u for u in range(len(left)) if not try_(u, set())]
+
     for k in range(ninst):
-        for it in exp[k]:
-            if it["must"] and not it["hit"]:
-                mech = {"offer": "scheduled-offer-or-answer-missing", "stop": "stopoffer-missing"}[it["kind"]]
-                bad(mech, instance=k, expected=(it["kind"], it["dst"], it["lo"], it["why"]),
-                    observed=[(m["t"], m["dst"], [(e["sid"], e["iid"], e["ttl"]) for e in m["entries"]]) for m in sent][:12])
+        items = exp[k]
+        unexplained = saturate(obs[k], items, fits)
+        for u in unexplained[:3]:
+            o = obs[k][u]
+            stops = [x for s, x in segs[k] if x is not None and x <= o["t"] + tol]
+            starts_after = [s for s, x in segs[k] if stops and s > max(stops) and s <= o["t"] + tol]
+            if o["kind"] == "offer" and stops and not starts_after:
+                mech = "offer-with-nonzero-ttl-after-stopoffer"
+            elif o["kind"] == "stop":
+                mech = "unexpected-or-duplicate-stopoffer"
+            elif o["dst"] != net.MCAST and o["dst"] not in (PEER, PEER2):
+                mech = "offer-sent-to-wrong-destination"
+            elif o["dst"] == net.MCAST:
+                mech = "offer-off-schedule"
+            else:
+                mech = "unexpected-find-answer"
+            near = sorted(items, key=lambda it: abs(it["lo"] - o["t"]))[:3]
+            bad(mech, instance=k, t=o["t"], dst=o["dst"], ttl=o["ttl"],
+                nearest_expected=[(it["kind"], it["dst"], it["lo"], it["hi"], it["must"], it["why"]) for it in near])
+        musts = [it for it in items if it["must"]]
+        missing = saturate(musts, obs[k], lambda it, o: fits(o, it))
+        for u in missing[:3]:
+            it = musts[u]
+            mech = {"offer": "scheduled-offer-or-answer-missing", "stop": "stopoffer-missing"}[it["kind"]]
+            bad(mech, instance=k, expected=(it["kind"], it["dst"], it["lo"], it["hi"], it["why"]),
+                observed=[(o["t"], o["dst"], o["kind"]) for o in obs[k]][:14])
+        n_unexpl = set(unexplained)
+        for u, o in enumerate(obs[k]):
+            if u not in n_unexpl:
+                ctx.count("offers_matched" if o["kind"] == "offer" and o["dst"] == net.MCAST else
+                          "stopoffers_matched" if o["kind"] == "stop" else "find_answers_matched")
     # ---- queue-order monitor: after a StopOffer is queued, no offer with TTL>0 until the next start
     stopped = {}
     started_at = {}
